@@ -2,7 +2,7 @@
 
 Decision-table enumeration: all 32 combinations of the report-request flags
 (reception, forwarding, delivery, deletion, status time) x report-to
-{dtn:none, a node, a node with a clockless subject} x 15 processing outcomes
+{dtn:none, a node, a node with a clockless subject} x 16 processing outcomes
 (deliver, forward, forward with fragmentation, delete by route, no matching
 route, three kinds of security failure, forward without transmit route,
 route MTU below the headers (with and without payload octets), first fragment
@@ -45,6 +45,8 @@ OUTCOMES = {
     # matching entry of the receive table says forward / delete: it is delivered, nothing else
     'own-endpoint-under-forward-table': ('dtn://node/', {'receive', 'deliver'}),
     'own-endpoint-under-delete-table': ('dtn://node/', {'receive', 'deliver'}),
+    # the convergence layer refuses the bundle (error reply to the send call) while the small report still gets through
+    'forward-refused-by-the-cl': ('dtn://far/app', {'receive', 'delete'}),
 }
 
 
@@ -59,7 +61,7 @@ def world_for(outcome):
         rx = [('^dtn://node/$', 'delete'), ('^dtn://.*', 'forward')]
     tx = [('^dtn://far/.*', 'dtn://next/', None), ('^dtn://farfrag/.*', 'dtn://next/', 120), ('^dtn://fartiny/.*', 'dtn://next/', 60),
           ('^dtn://rpt/.*', 'dtn://next/', None), ('^ipn:9\\..*', 'dtn://next/', None)]
-    return BpWorld(dict(node_id=NODE, rx_routes=rx, tx_routes=tx))
+    return BpWorld(dict(node_id=NODE, rx_routes=rx, tx_routes=tx, cl_refuse_over=(260 if outcome == 'forward-refused-by-the-cl' else None)))
 
 
 def bundle_for(outcome, flags, report_to, seq=1, subject='clock'):
@@ -83,6 +85,8 @@ def bundle_for(outcome, flags, report_to, seq=1, subject='clock'):
         blocks.insert(0, dict(type=B.T_AGE, num=3, flags=0, crc_type=0, data=B.enc_age(5000)))
     if outcome == 'forward-mtu-too-small':
         blocks[-1]['data'] = bytes(range(100))
+    if outcome == 'forward-refused-by-the-cl':
+        blocks[-1]['data'] = bytes(range(250))
     if outcome == 'forward-mtu-too-small-empty-payload':
         blocks[-1]['data'] = b''
         blocks.insert(0, dict(type=B.T_HOP_COUNT, num=4, flags=0, crc_type=1, data=B.enc_hop_count(30, 1)))
@@ -250,13 +254,13 @@ def scenarios(tier):
 
 ASSUMPTIONS = [
     'an absent report-to endpoint is encoded as dtn:none (RFC 9171 has no other way to omit it)',
-    'the fifteen outcomes are produced by routing tables / a BIB or BCB with an unknown security context / an undecodable BCB / a route MTU of 120 octets',
+    'the sixteen outcomes are produced by routing tables / a BIB or BCB with an unknown security context / an undecodable BCB / a route MTU of 120 octets',
     'thorough tier: also subjects without CRC / with CRC-32, an ipn report-to endpoint, and subjects that are themselves fragments (fragment fields of the report are not judged)',
     'subjects: a bundle with a creation time, and one from a clockless source (creation time 0, sequence number, age block)',
     'a report is required for deliver / forward / delete-by-route / own-endpoint when a requested action occurred (the title says "exactly when requested"); for the other outcomes only reports that are emitted are judged',
 ]
 
-RULE = ('decision table of 32 flag combinations x (no report-to, report-to, report-to with a clockless subject) x 15 outcomes enumerated completely on a fresh real '
+RULE = ('decision table of 32 flag combinations x (no report-to, report-to, report-to with a clockless subject) x 16 outcomes enumerated completely on a fresh real '
         'agent each; every administrative record reaching the convergence layer is decoded independently and compared '
         'with the reference report; non-trivial = a report was emitted')
 
